@@ -47,7 +47,8 @@ FindPath(st, p) == IF \E i \in 1..Len(st.tab) : st.tab[i].path = p
 
 (* bufs_switch(idx): the live view is saved into slot 1, slot idx comes to the front *)
 Switch(st, i) ==
-    LET t0 == [st.tab EXCEPT ![1].row = st.row]
+    (* the buffer that is left ends its undo step: what is changed in it after coming back is another step *)
+    LET t0 == [st.tab EXCEPT ![1].row = st.row, ![1].lb = Lb!Bump(st.tab[1].lb)]
         t1 == <<t0[i]>> \o SubSeq(t0, 1, i - 1) \o SubSeq(t0, i + 1, Len(t0))
     IN [st EXCEPT !.tab = t1, !.row = t0[i].row]
 
